@@ -342,10 +342,12 @@ class StoreHook(object):
 # ---------------------------------------------------------------------------------------
 class ApiBoundary(object):
     """Wrap public callables of a context.  handler(ev) is called at exit of every wrapped call with
-    ev = dict(name, depth, args, kwargs, before, after, result, exc) where before/after = state(ctx)."""
+    ev = dict(name, depth, args, kwargs, before, after, result, exc) where before/after = state(ctx).
+    Optional on_enter(name, depth, args, kwargs) is called at entry (after the depth counter was incremented)."""
 
-    def __init__(self, ctx, names, handler, state=None, also_module=None):
+    def __init__(self, ctx, names, handler, state=None, also_module=None, on_enter=None):
         self.ctx, self.names, self.handler = ctx, list(names), handler
+        self.on_enter = on_enter
         self.state = state or (lambda c: (c.prec, c.dps))
         self.depth = 0
         self.saved = []
@@ -387,6 +389,8 @@ class ApiBoundary(object):
             me.calls += 1
             d = me.depth
             try:
+                if me.on_enter is not None:
+                    me.on_enter(name, d, a, k)
                 res = orig(*a, **k)
             except BaseException as e:
                 me.depth -= 1
